@@ -147,7 +147,7 @@ theorem decays_to_reserve {n lease : Nat} {inst : Nat → LInst} (hc : Configure
     (s0.now + s0.lease ≤ s.now → C04.Settled s → (s.inst i).held = [] ∧ (s.inst i).capacity = (s.inst i).reserved) := by
   have hq0 : Quiet (s0.now + s0.lease) s0 i := by
     refine ⟨ht, fun p c hm => (reach_lwf hc h0 i).timerFresh p c hm, fun cl hcl => ?_⟩
-    have := ((reach_lwf hc h0 i).callOK cl hcl).2.2.1
+    have := ((reach_lwf hc h0 i).callOK cl hcl).2.2
     omega
   have hq := run_quiet n i _ ls s0 s hr hl hq0
   constructor
